@@ -1136,6 +1136,8 @@ impl<F: RichField + Extendable<D>, const D: usize> CircuitBuilder<F, D> {
         self.blind_and_pad();
         let degree = self.gate_instances.len();
         debug!("Degree after blinding & padding: {}", degree);
+        #[cfg(feature = "verif_hooks")]
+        crate::verif_hooks::record_gate_instances(&self.gate_instances);
         let degree_bits = log2_strict(degree);
         let fri_params = self.fri_params(degree_bits);
         assert!(
